@@ -348,6 +348,15 @@ public:
     clear_flags(JitAllocatorBlock::kFlagDirty);
   }
 
+  //! Tests whether `area_index` is the first unit of a live span - not a unit inside a span and not the initial padding.
+  ASMJIT_INLINE bool is_span_start(uint32_t area_index) const noexcept {
+    return area_index >= initial_area_start() &&
+           Support::bit_vector_get_bit(_used_bit_vector, area_index) &&
+           (area_index == 0 ||
+            Support::bit_vector_get_bit(_stop_bit_vector, area_index - 1) ||
+            !Support::bit_vector_get_bit(_used_bit_vector, area_index - 1));
+  }
+
   ASMJIT_INLINE void mark_allocated_area(uint32_t allocated_area_start, uint32_t allocated_area_end) noexcept {
     uint32_t allocated_area_size = allocated_area_end - allocated_area_start;
 
@@ -1035,9 +1044,10 @@ Error JitAllocator::release(void* rx) noexcept {
   // The first bit representing the allocated area and its size.
   uint32_t area_index = uint32_t(offset >> pool->granularity_log2);
 
-  // Reject pointers that don't point to a live allocation (already released or never returned by alloc()).
-  bool is_used = Support::bit_vector_get_bit(block->_used_bit_vector, area_index);
-  if (ASMJIT_UNLIKELY(!is_used)) {
+  // Reject pointers that don't point to the first byte of a live allocation (already released, never returned by
+  // alloc(), or pointing into the middle of a span).
+  bool is_span_start = (offset & (size_t(pool->granularity) - 1u)) == 0u && block->is_span_start(area_index);
+  if (ASMJIT_UNLIKELY(!is_span_start)) {
     return make_error(Error::kInvalidState);
   }
 
@@ -1086,8 +1096,8 @@ static Error JitAllocatorImpl_shrink(JitAllocatorPrivateImpl* impl, JitAllocator
   uint32_t area_start = uint32_t(offset >> pool->granularity_log2);
 
   // Don't trust `span.size()` - if it has been already truncated we would be off...
-  bool is_used = Support::bit_vector_get_bit(block->_used_bit_vector, area_start);
-  if (ASMJIT_UNLIKELY(!is_used)) {
+  bool is_span_start = (offset & (size_t(pool->granularity) - 1u)) == 0u && block->is_span_start(area_start);
+  if (ASMJIT_UNLIKELY(!is_span_start)) {
     return make_error(Error::kInvalidArgument);
   }
 
